@@ -103,6 +103,40 @@ CLAIMED['C20'] = {
     'technique': 'Coq proof (round-trip + frame lemmas over the reader model) + correspondence with main() on real files',
 }
 
+CLAIMED['C11'] = {
+    'text': 'Theorem C11_writer_accepted proves, for EVERY well-nested write history (any number of interchanges/groups/sets, '
+            'trailers supplied with any counts, omitted inside an enclosing trailer, or left to Close) and by C11_prefix_closed '
+            'for every prefix of one, that what the writer model emits is read back by the reader model with no envelope '
+            'error and nothing left open — which by C04_reader_exact means every trailer carries its header\'s control '
+            'number and the true count; C11_segments_kept that non-trailer segments are written unchanged and in order '
+            '(ISA only in ISA11/ISA16); C11_writer_total that the writer never raises. Side conditions on the delimiters '
+            'and on ISA13 are each shown necessary by a counterexample proved in Coq; C11_hypotheses_satisfiable exhibits a '
+            'real interchange meeting all of them. Tied to the code by ~900 (quick) write histories incl. other delimiters, '
+            'ill-nested ones and the 837 LX rewriting, each closed after sampled/all prefixes and re-read with X12Reader.',
+    'design_ref': 'DESIGN.md §6 C11',
+    'note': 'Trusted: Coq kernel; hand transcription of X12Writer (shared X12Base bookkeeping with the reader model); extraction + '
+            'driver; Spec/C11_spec.v (well-nested history, writable segments). "ISA carries the writer\'s delimiters" is checked '
+            'on the implementation by re-reading every written interchange.',
+    'technique': 'Coq proof by simulation between writer state and reader state over the written segments + correspondence',
+}
+CLAIMED['C16'] = {
+    'text': 'Finite by nature: for every map file the index names (and the two control maps) theorem C16_maps_consistent '
+            'evaluates, inside Coq over the XML regenerated from /repo/pyx12/map on every run, the loader model and all '
+            'clauses of the property (defined data elements and external code sets, well-formed usages/limits/positions/'
+            'syntax notes, distinguishable same-position siblings, every loop/segment/element/component fetched again by '
+            'its own path with both lookups, unique paths) and proves the list of offenders equal to the recorded one '
+            '(empty except for the findings in known_findings.json); C16_index_consistent proves the index unambiguous and '
+            'complete. Nodes the path scheme cannot address are characterised structurally (shadowed) rather than listed. '
+            'The transcription and the loader model are tied to the code by comparing, node by node, the implementation\'s '
+            'loaded tree, every node path, getnodebypath/getnodebypath2 on every path and on mutated paths, and every index '
+            'key (28k comparisons in the quick tier); the clauses are also evaluated on the implementation\'s own objects.',
+    'design_ref': 'DESIGN.md §6 C16',
+    'note': 'Trusted: Coq kernel (vm_compute); tools/gen/maps.py and c16.py; hand transcription of the map constructors and '
+            'lookups; XmlSer glue + driver; expat. "Explicit directory = packaged resources" is tested on a copy of the '
+            'directory, not modelled.',
+    'technique': 'Coq computation (vm_compute) over regenerated map data, one theorem per map + extracted-model correspondence',
+}
+
 NOT_YET = {
 }
 
